@@ -55,6 +55,21 @@ def strata(tier):
                     leaf = dict(leaf, args=leaf["args"][:1])
                 yield {"term": leaf, "sseed": j, "probe": cont}
     L = PC.L
+    # keyword names of items_contain that collide with names a parser helper might use itself
+    # (`self`, `cls`, `func`, `callable` cannot be given through the DSL either - Python binds them to the library's own
+    # parameters - so they are not conditions "the DSL can build")
+    for names in (("method", "port"), ("spec",), ("args", "kwargs"), ("value", "key"), ("name", "condition"),
+                  ("data", "datum"), ("keys", "items"), ("N",), ("lower", "upper"), ("tolerance",), ("path", "b"), ("type", "and")):
+        kw = {n: (i if i % 2 else "v%d" % i) for i, n in enumerate(names)}
+        for ss in range(3):
+            yield {"term": {"c": "leaf", "kind": "value", "pre": None, "fn": "items_contain", "args": [], "kwargs": kw}, "sseed": ss,
+                   "probe": [dict(kw), {}, dict(kw, extra=1), 3], "stratum": "hostile-keyword-names"}
+    # data path arguments under the type pre-processor (looked up, never read as type names)
+    for P in ({"$path": dict(PC.mkpath([{"p": "prim", "v": "limits"}, {"p": "prim", "v": "ref"}]), datum="dtype")},
+              {"$path": PC.mkpath([{"p": "prim", "v": "str"}])}, {"$path": dict(PC.mkpath([{"p": "prim", "v": "int"}, {"p": "list"}]), datum="dtype", multi="first")}):
+        for tm in (PC.L("value", "equal_to", P, pre="dtype"), PC.L("value", "in_", [P, {"$type": "str"}], pre="dtype"), PC.L("key", "not_equal_to", P, pre="dtype")):
+            for ss in range(3):
+                yield {"term": tm, "sseed": ss, "probe": [1, "a", 2.5] if tm["kind"] == "value" else {"a": 1, 2: 3}, "stratum": "dtype-with-path-argument"}
     # None next to type names under the type pre-processor ("a str or nothing"); type objects vs names, incl. bool / int
     for kind, cont in (("value", [None, "a", 1, True, 2.5, [1], {"a": 1}]), ("key", {None: 1, "a": 2, 3: 4, True: 5, 2.5: 6})):
         for fn in ("in_", "not_in"):
